@@ -149,7 +149,11 @@ def handle (req : Json) : Except String Json := do
   let via : Json := match viaTables rnd true true info all with
     | some r => resToJson r
     | none => obj [("raised", Json.str "no-table-entry")]
-  pure (obj [("specLW", specLW), ("viaTables", via), ("names", namesOf false), ("namesS", namesOf true), ("clean", Json.bool (cleanRunB all)), ("specTables", tabs (.ok (specTables rnd all))),
+  -- phase 6: the same log with its records grouped by key (`regroupLog`: every id's records keep their order) — theorem `regroupLog_same`
+  let fileTT := fileAfter rnd true info file0tt txs
+  pure (obj [("regrouped", resToJson (readLog true (regroupLog fileTT))), ("padRegrouped", tabs (tablesOf true (regroupLog fileTT))),
+             ("regroupMoved", ofNat (((regroupLog fileTT).zip fileTT).filter (fun (p : Rec × Rec) => decide (recKey p.1 ≠ recKey p.2))).length),
+             ("specLW", specLW), ("viaTables", via), ("names", namesOf false), ("namesS", namesOf true), ("clean", Json.bool (cleanRunB all)), ("specTables", tabs (.ok (specTables rnd all))),
              ("padRev", tabs (tablesOf true (fileAfter rnd true info none all.reverse))), ("unions", Json.arr (unions .E "E" ++ unions .L "L" ++ unions .V "V").toArray),
              ("pad", padOf false), ("padS", padOf true),
              ("ff", combo false false false), ("ft", combo false true false), ("tf", combo true false false), ("tt", combo true true false),
